@@ -85,6 +85,14 @@ def case_same_text():
     return {'main': t}
 
 
+def case_spaced():
+    """a qualified reference written with whitespace / a line break around its dots"""
+    t = Text()
+    t.add('package pp {\n  class c;\n  class d uses ').ref('pp . c', 'c').add(', ').ref('c', 'c').add(' base ')
+    t.ref('pp\n .c', 'c').add(';\n}')
+    return {'main': t}
+
+
 def case_two_metamodels():
     """the imported file belongs to another registered language (pattern *.m2), i.e. to another metamodel"""
     lib = Text()
@@ -96,7 +104,7 @@ def case_two_metamodels():
     return {'main': main, 'lib.m2': lib}
 
 
-CASES = {'single': case_single, 'two-files': case_two_files, 'same-text': case_same_text,
+CASES = {'single': case_single, 'two-files': case_two_files, 'same-text': case_same_text, 'spaced-qualified': case_spaced,
          # the model is given as a string (with a file name), lines end in CR LF: positions are offsets into
          # the text the caller handed over
          'single-crlf-string': lambda: case_single('\r\n'),
@@ -177,7 +185,8 @@ def run(c, case, max_attempts):
                 problems.append('%s has no _pos_crossref_list' % fn)
                 continue
             got = [(r.ref_pos_start, r.ref_pos_end, r.name) for r in lst]
-            exp = [(s, e, txt) for s, e, txt, tgt in sorted(t.refs)]
+            # the entry's name is the reference as textX reads it: the written text without inner whitespace
+            exp = [(s, e, ''.join(txt.split())) for s, e, txt, tgt in sorted(t.refs)]
             if sorted(got) != exp:
                 problems.append('%s: references %s, expected %s' % (fn, sorted(got), exp))
             elif got != exp:
@@ -286,7 +295,7 @@ def main():
     chk.cov['functions_encoded'] = src_hash(M.ReferenceResolver.resolve_one_step, M.parse_tree_to_objgraph,
                                             M.RefRulePosition)
     chk.cov['bounds'] = {'cases': list(CASES), 'postponable_attempts_per_reference': 1 if quick else 2}
-    chk.cov['outside_claim'] = ['other grammars / layouts', 'whitespace inside a qualified reference']
+    chk.cov['outside_claim'] = ['other grammars / layouts']
     chk.assumptions = ['finite schedule space enumerated exhaustively (selectors unconstrained: z3 decides nothing)']
     paths = 0
     for (st, r, secs) in results:
